@@ -140,6 +140,15 @@ def score(v):
     return final_score(mv, distances(v, mv), False)
 
 
+ORACLE_ORDER = ['AV', 'PR', 'UI', 'AC', 'AT', 'VC', 'VI', 'VA', 'SC', 'SI', 'SA', 'CR', 'IR', 'AR', 'E']
+
+
+def score_levels(levels):
+    """exact score x 10 for the effective severity levels in ORACLE_ORDER (0 = first value of LEVELS[m])"""
+    v = {m: LEVELS[m][l] for m, l in zip(ORACLE_ORDER, levels)}
+    return score(v)
+
+
 R_FINAL = [3, 2, 3, 3, 3, 2, 16, 16, 16, 16, 2]
 
 
